@@ -19,6 +19,9 @@ use vharness::common::*;
 
 const BASE: i64 = 1_700_006_400_000; // a midnight (UTC)
 static MISSING: std::sync::atomic::AtomicU64 = std::sync::atomic::AtomicU64::new(0);
+/// bound of every wait for an event: generous until events have gone missing three times in this run
+/// (then the tree under test drops recompute requests and the run must stay short)
+fn wait_bound() -> std::time::Duration { if MISSING.load(std::sync::atomic::Ordering::SeqCst) < 3 { std::time::Duration::from_secs(5) } else { std::time::Duration::from_millis(500) } }
 type Uid = [u8; 16];
 
 /// DeletionQuery::updated_nodes holds Node (baseline) or NodeDelete (after the C01 reference-deletion fix)
@@ -95,7 +98,7 @@ impl Inst {
     async fn wait_events(&mut self, n: usize) -> Vec<Vec<(String, String, i64)>> {
         let mut out = vec![];
         while out.len() < n {
-            match tokio::time::timeout(std::time::Duration::from_secs(5), self.ev.recv()).await {
+            match tokio::time::timeout(wait_bound(), self.ev.recv()).await {
                 Ok(Ok(Event::DataChanged(d))) => {
                     let mut v = vec![];
                     for (r, m) in &d.rooms { for (e, ds) in m { for d in ds { v.push((r.clone(), e.clone(), *d)); } } }
